@@ -213,7 +213,7 @@ func c16Encoders(c *Ctx, src c16Source, viol func(api, clause, detail string)) [
 		}
 	case "mapseq":
 		build := func() mxj.MapSeq {
-			m, err := mxj.NewMapXmlSeq([]byte(src.xml))
+			m, err := mxj.NewMapXmlSeq([]byte(src.xml), strings.HasSuffix(src.via, "-cast"))
 			if err != nil {
 				panic("c16: source does not decode: " + err.Error())
 			}
@@ -224,7 +224,7 @@ func c16Encoders(c *Ctx, src c16Source, viol func(api, clause, detail string)) [
 				if jerr != nil {
 					panic("c16: " + jerr.Error())
 				}
-				mxj.JsonUseNumber = src.via == "json-number"
+				mxj.JsonUseNumber = strings.HasPrefix(src.via, "json-number")
 				m2, derr := mxj.NewMapJson(j)
 				mxj.JsonUseNumber = false
 				if derr != nil {
@@ -862,6 +862,17 @@ func c16Run(c *Ctx) {
 		c16Explore(c, c16Source{kind: "mapseq", xml: d, via: "json"}, 1, false)
 		c16Explore(c, c16Source{kind: "mapseq", xml: d, via: "json-number"}, 1, false)
 		c.S.States += 2
+	}
+	// ... and decoded with the cast flag first: numbers in attribute and element values come back as json.Number / float64
+	for _, d := range []string{`<a x="1" y="s"><b z="2.5">3</b><c>true</c></a>`} {
+		for _, via := range []string{"json-cast", "json-number-cast"} {
+			if !c.Mine() {
+				continue
+			}
+			c.S.States++
+			c.S.Evaluations++
+			c16Explore(c, c16Source{kind: "mapseq", xml: d, via: via}, 1, false)
+		}
 	}
 	// keys that differ only in case, by a prefix, or by a number read lexically (ascending byte order is the
 	// documented order for attributes and child elements)
